@@ -108,8 +108,8 @@ def finish(run, args):
             if harness:
                 native_res = native(harness, inputs)
                 payload["native"] = native_res
-                if not native_res.get("violates") and hasattr(mod, "SEARCH") and mod.SEARCH.get(obl_key(name)):
-                    sres = native(mod.SEARCH[obl_key(name)], dict(seed=run.seed, around=inputs))
+                if not native_res.get("violates") and pick(getattr(mod, "SEARCH", {}), name):
+                    sres = native(pick(mod.SEARCH, name), dict(seed=run.seed, around=inputs))
                     payload["native_search"] = sres
                     if sres.get("violates"):
                         native_res = sres
@@ -120,8 +120,8 @@ def finish(run, args):
         # open without any model: bare timeout / unknown
         reason = "; ".join(sorted(set(str(r.get("reason")) for r in insts)))[:200]
         sres = None
-        if hasattr(mod, "SEARCH") and (mod.SEARCH.get(obl_key(name)) or mod.SEARCH.get("*")):
-            h = mod.SEARCH.get(obl_key(name)) or mod.SEARCH.get("*")
+        if pick(getattr(mod, "SEARCH", {}), name):
+            h = pick(mod.SEARCH, name)
             sres = native(h, dict(seed=run.seed, around={}))
             payload["native_search"] = sres
             payload["harness"] = h
@@ -149,6 +149,9 @@ def finish(run, args):
         with open(os.path.join(VERIF, "baseline", pid + ".json"), "w") as f:
             json.dump(dict(property=pid, discharged=sorted(n for n, a in agg.items() if a["verdict"] == "discharged")),
                       f, indent=1)
+    if getattr(args, "v", False):
+        for name, a in sorted(agg.items()):
+            print("  %-11s %6.2fs x%-3d %s %s" % (a["verdict"], a["secs"], a["instances"], ",".join(a["backends"]), name))
     print("%s: %d obligations, %d discharged, %d paths, %.1fs" % (pid, nobl, ndis, run.paths, wall))
     for k, name in known_hits:
         print("KNOWN-FINDING: property=%s %s [%s]" % (pid, k.get("what"), name))
